@@ -161,3 +161,11 @@ pub proof fn lemma_lin_ids_mem(t: Seq<v1::linear::Term>, n: int, k: u64)
         }
     }
 }
+
+// observation: Quadratic::quad_iter asserts that the COO arrays have equal lengths (it panics otherwise) - the precondition of every operator that reaches it
+pub open spec fn qcoo(q: v1::Quadratic) -> bool { q.columns.len() == q.rows.len() && q.columns.len() == q.values.len() }
+pub open spec fn fn_coo_ok(f: v1::Function) -> bool { match f.function { Some(v1::function::Function::Quadratic(q)) => qcoo(q), _ => true } }
+// observation: Function::evaluate_bound converts the multiplicity of an id in a monomial to u8 (`as u8`): degrees of 256 and more wrap around
+pub open spec fn small_degree(f: v1::Function) -> bool {
+    match f.function { Some(v1::function::Function::Polynomial(p)) => forall|i: int| 0 <= i < p.terms.len() ==> (#[trigger] p.terms[i]).ids.len() < 256, _ => true }
+}
